@@ -173,6 +173,23 @@ EXTRA7 = {
 }
 for k, v in EXTRA7.items():
     CHECKS[k]['text'] += v
+EXTRA8 = {
+ 'C01': " Before any stream is bound, RTCP is written and read twice through every chain.",
+ 'C04': " C04R also runs UnbindLocalStream followed by Close against a NACK under way (bound 3): no retransmission is written after Close returned; writes to the sink are scheduling points.",
+ 'C06': " All streams are bound from one StreamInfo object that is reused and overwritten after the last Bind.",
+ 'C07': " Idle scripts at 192 kHz and 1 MHz (elapsed x rate beyond 2^31 within hours or minutes).",
+ 'C08': " In recorder mode the previous report is marshalled again after the next BuildReport and must not have changed.",
+ 'C09': " The two RFC 8888 streams have SSRCs that are equal in their low 16 bits.",
+ 'C12': " The workload also writes packets with the stream's RTX SSRC on the stream's writer.",
+ 'C13': " A second twcc-sender variant has logging turned on (every level, formatted at once): what is logged is part of what the differential compares; one read shape carries a one-byte transport-cc element on every second packet.",
+ 'C14': " The earlier binding of the first stream is unbound after the new binding has carried its first packet.",
+ 'C15': " The packets written after the other streams were unbound carry the stream's RTX and FEC SSRC.",
+ 'C18': " A second interceptor from the same factory receives one packet before and one after every interceptor-level history and must be buffering on its own.",
+ 'C19': " The length of the header extension value alternates with the sequence number.",
+ 'C20': " Replays of a 32-bit conversion carry the conversion made before it (the result must not depend on it).",
+}
+for k, v in EXTRA8.items():
+    CHECKS[k]['text'] += v
 checks = []
 for pid in sorted(CHECKS):
     c = CHECKS[pid]
